@@ -160,15 +160,7 @@ func (m *maker) caOpts() (certs.CAOptions, string) {
 	return o, desc
 }
 
-func jsonBody(chain [][]byte) []byte {
-	b, err := json.Marshal(struct {
-		Chain [][]byte `json:"chain"`
-	}{chain})
-	if err != nil {
-		panic(err)
-	}
-	return b
-}
+func jsonBody(chain [][]byte) []byte { return certs.AddChainBody(chain) }
 
 // mint makes the abstract case concrete.
 func (m *maker) mint(p planRec) *minted {
@@ -374,12 +366,24 @@ func TestSubmission(t *testing.T) {
 			for _, n := range set {
 				cas = append(cas, roots[n])
 			}
-			err := w.log.SetRootsFromPEM(ctx, certs.PEM(cas...))
-			rec := map[string]any{"ev": "Reload", "gen": g, "set": set, "ok": err == nil}
-			if err != nil {
-				rec["err"] = err.Error()
+			reload := func(how string, pem []byte) {
+				err := w.log.SetRootsFromPEM(ctx, pem)
+				rec := map[string]any{"ev": "Reload", "gen": g, "set": set, "ok": err == nil, "how": how}
+				if err != nil {
+					rec["err"] = err.Error()
+				}
+				trace = append(trace, rec)
 			}
-			trace = append(trace, rec)
+			reload("new set", certs.PEM(cas...))
+			trace = append(trace, getRoots())
+			// redundant reloads: the same bytes again (a no-op in the code), then
+			// the same set as a different bundle (reversed, one certificate twice)
+			reload("same bytes", certs.PEM(cas...))
+			var rev []*certs.Authority
+			for i := len(cas) - 1; i >= 0; i-- {
+				rev = append(rev, cas[i])
+			}
+			reload("same set, reversed with a duplicate", certs.PEM(append(rev, cas[0])...))
 		} else if g == restartGen {
 			if err := w.load(); err != nil {
 				fail("restart: %v", err)
